@@ -37,6 +37,12 @@ def run(res, tier, seed):
                 W = (lambda sub, fill: (lambda role: ({"fill": fill} if role in sub else None)))(sub, fill)
                 engine.run_ops(res, "C09", [name], seed + k, n, 100 if tier == "quick" else 200, W=W,
                                tag="/win=" + "+".join(sub), runner=runner)
+    # row widths 1..10 words: the word-width specialised loops (add has one per width 1..8) behave differently per width;
+    # destinations and sources as windows with partial last words, surroundings all ones / random
+    wide_ops = [nm for nm, d in sorted(ops.CATALOG.items()) if d["prop"] == "C08" or nm in ("row_add", "row_swap", "col_swap")]
+    for fill in ("ones", "rand"):
+        W = (lambda fill: (lambda role: {"fill": fill}))(fill)
+        engine.run_ops(res, "C09", wide_ops, seed + 1000 + len(fill), 10 if tier == "quick" else 60, 330, W=W, tag="/wide/win=all", runner=runner)
 
 
 def replay(res, path):
